@@ -370,6 +370,34 @@ Section Tables.
     mkRaw (gcls g) (gargs g) (filter (fun kv => mem_str (fst kv) required_kw) (gkw g))
           (gtargets g) (gcontrols g) (gsamples g).
 
+  (* Gate.raw on the repaired tree (commit "Gate.raw dropped trainable"): besides the required keywords,
+     `trainable` is exported iff the class takes a `trainable` argument, the gate's init_kwargs has it and its
+     value differs from the default of the class (`formal.default`; a formal without default compares unequal to
+     everything).  The key is assigned after the filter, so it comes last -- unless it is a required keyword
+     already.  `raw` above is the pre-repair rule; raw_t = raw whenever the flag has its default (raw_t_default). *)
+  Fixpoint find_formal (n : string) (l : list formal) : option formal :=
+    match l with
+    | [] => None
+    | f :: l' => if String.eqb n (fname f) then Some f else find_formal n l'
+    end.
+  Definition trainable_extra (g : gate) : list (string * val) :=
+    if mem_str "trainable" required_kw then [] else
+    match find_row (gcls g) rows with
+    | Some r =>
+        match find_formal "trainable" (rformals r), lookup "trainable" (gkw g) with
+        | Some f, Some v =>
+            match fdef f with
+            | Some d => if val_eqb v d then [] else [("trainable", v)]
+            | None => [("trainable", v)]
+            end
+        | _, _ => []
+        end
+    | None => []
+    end.
+  Definition raw_t (g : gate) : graw :=
+    mkRaw (gcls g) (gargs g) (filter (fun kv => mem_str (fst kv) required_kw) (gkw g) ++ trainable_extra g)
+          (gtargets g) (gcontrols g) (gsamples g).
+
   (* gate.controlled_by( *cs) as used by from_dict, including its `except RuntimeError` clause *)
   Definition controlled_by_dance (r : row) (g : gate) (cs : list Z) : res gate :=
     match rcb r with
@@ -465,6 +493,7 @@ Section Tables.
 
   (* ---------------------------------------------------------------- Circuit.raw / from_dict *)
   Definition craw (c : circuit) : Z * bool * list graw := (cn c, cdm c, map raw (cqueue c)).
+  Definition craw_t (c : circuit) : Z * bool * list graw := (cn c, cdm c, map raw_t (cqueue c)).
   Definition cfrom_dict (d : Z * bool * list graw) : res circuit :=
     let '(n, dm, q) := d in
     foldM (fun c w => g <- from_dict w; add c g) q (cinit n dm).
